@@ -303,7 +303,7 @@ def h2_session(seed):
     desc = {"seed": seed, "carrier": "h2", "streams": n, "fault": fault}
     log = AccessLog([])
     with StreamCounter() as counter:
-        sess = H2.H2Session([], policy=rng.choice(["fifo", "random", "lifo"]), seed=seed, app=make_app)
+        sess = H2.H2Session([], policy=rng.choice(["fifo", "random", "lifo"]), seed=seed, app=make_app, worker=rng.choice(["asyncio", "trio"]))
         sess.cfg._log = log
         driver = sess.driver
 
@@ -324,10 +324,18 @@ def h2_session(seed):
             except Exception:  # noqa: BLE001
                 pass
 
+        # sometimes every request arrives in one read, and the very first writes fail: streams are then still being created
+        # (later frames of the same read) after the connection has been told once that it is closed
+        batch = rng.random() < 0.35
+        if batch and fault == "write-fails":
+            sess.rig.transport.fail_after = rng.choice([0, 1, 2])
         for i in range(n):
             sid = 1 + 2 * i
             sess.client.send_headers(sid, [(b":method", b"POST"), (b":path", b"/s%d" % sid), (b":scheme", b"https"), (b":authority", b"x")])
             sess.client.send_data(sid, b"abc", end_stream=True)
+            if not batch:
+                pump_no_time()
+        if batch:
             pump_no_time()
         at = rng.randrange(0, 6)
         for tick in range(12):
